@@ -92,3 +92,13 @@ pub fn parse_format(t: &str, x: &str) -> Out {
 pub fn parsed_ops(tpl: &Template) -> Vec<Vec<crate::ast::Op>> {
     tpl.get_template_sections().iter().map(|(_, ops)| ops.iter().map(crate::ast::op_from_real).collect()).collect()
 }
+
+/// format_with_inputs under catch_unwind
+pub fn fwi(tpl: &Template, inputs: &[Vec<String>], seps: &[String]) -> Out {
+    let refs: Vec<Vec<&str>> = inputs.iter().map(|v| v.iter().map(|s| s.as_str()).collect()).collect();
+    let slices: Vec<&[&str]> = refs.iter().map(|v| v.as_slice()).collect();
+    let sep_refs: Vec<&str> = seps.iter().map(|s| s.as_str()).collect();
+    match guarded(&|| format!("format_with_inputs {:?}", tpl.template_string()), || tpl.format_with_inputs(&slices, &sep_refs)) {
+        Ok(Ok(s)) => Out::Ok(s), Ok(Err(_)) => Out::Err, Err(()) => Out::Panic,
+    }
+}
